@@ -435,6 +435,13 @@ void harness(void)
 		symx_reach("hopped");
 	}
 	symx_reach("table-full");
+#else
+	/* optionally the second file is already open (visited and left again) when the history starts */
+	if (symx_conc(symx_u8("second_open") & 1)) {
+		step(9, 2);
+		step(9, 1);
+		symx_reach("second-open");
+	}
 #endif
 	for (k = 0; k < K; k++) {
 		int c = symx_u8("cmd"), N = symx_u8("N");
